@@ -364,3 +364,39 @@ def run(m):
     v = r["violations"]
     return {"failing": bool(v), "witness": v[0]["witness"] if v else "termination", "call": v[0]["source"] if v else "recursion sweep", "result": v[0]["got"] if v else "ok"}
 '''
+
+
+# ---- callees summarised elsewhere, verified here: eat_block stops at the first end tag or at the
+# ---- end of the stream and never raises
+
+def _eat_block_contract(kinds, end_at):
+    @contract("liquid.parser:eat_block", prop="C09", name=f"eat_block[{','.join(kinds) or 'empty'}: stops at {'the end tag' if end_at is not None else 'EOF'}]")
+    def eb(c):
+        toks = []
+        for i, k in enumerate(kinds):
+            kind = "tag" if k.startswith("tag:") else k
+            value = const(k.split(":", 1)[1]) if k.startswith("tag:") else c.str(f"value{i}")
+            toks.append(c.obj("liquid.token:Token", f"token{i}", kind=const(kind), value=value, start_index=c.int(f"start{i}"), source=c.str("source")))
+        eof = c.obj("liquid.token:Token", "eof", kind=const("eof"), value=const(""), start_index=const(-1), source=const(""))
+        import pyvc.flow as _flow
+        import ast as _ast
+        tokmod = load.get_module("liquid.token")
+        eof_kind = _flow.const_eval(tokmod, tokmod.consts["TOKEN_EOF"])
+        tag_kind = _flow.const_eval(tokmod, tokmod.consts["TOKEN_TAG"])
+        for t, k in zip(toks, kinds):
+            if k.startswith("tag:"):
+                c.st.deref(t).fields["kind"] = const(tag_kind)
+        c.st.deref(eof).fields["kind"] = const(eof_kind)
+        stream = c.obj("liquid.stream:TokenStream", "stream", tokens=c.st.alloc(HList(items=list(toks))), pos=const(0), block_depth=const(0), eof=eof)
+        from pyvc.expr import _Frozen
+        c.call(stream, VConst(_Frozen(frozenset(("endif", "else")))))
+        want = end_at if end_at is not None else len(kinds)
+        c.ensures("stops-exactly-there", lambda r: r.st.deref(stream).fields["pos"].t == want)
+        c.raises()
+        c.replay("code", code=REPLAY_NESTING)
+
+
+_eat_block_contract((), None)
+_eat_block_contract(("content", "tag:for", "output"), None)
+_eat_block_contract(("content", "tag:for", "tag:endif", "content"), 2)
+_eat_block_contract(("tag:else", "tag:endif"), 0)
